@@ -19,7 +19,7 @@ Definition show_kind (k : opkind) : bytes :=
              | KLockFetch => s2b "lockfetch" | KLockReplace => s2b "lockreplace" | KLockCreate => s2b "lockcreate" end.
 Definition show_errc (e : errc) : bytes :=
   match e with EClosed => s2b "closed" | ERateLimit => s2b "ratelimit" | EEvicted => s2b "evicted"
-             | EIssuer => s2b "issuer" | ENonFatal => s2b "nonfatal" | EFatal => s2b "fatal" | ECanceled => s2b "canceled" end.
+             | EIssuer => s2b "issuer" | ENonFatal => s2b "nonfatal" | EFatal => s2b "fatal" | ECanceled => s2b "canceled" | ESunset => s2b "sunset" end.
 Definition show_cp (c : cp) : bytes :=
   s2b "cp:" ++ hx (cp_origin c) ++ x3a :: dec (cp_size c) ++ x3a :: hx (cp_root c) ++ x3a :: decZ (cp_ts c)
   ++ x3a :: dec (cp_key c) ++ x3a :: hx (cp_ext c).
